@@ -6,6 +6,10 @@ import arith_catalogue as AC
 from arith_catalogue import V, ev
 
 CAT = AC.load()
+# configurations the catalogue is executed in (C05: rel + w32; C07 / C19 re-run it in their own configurations)
+CFGS = ['rel', 'w32']
+def wbits(cfg):
+    return 32 if ('32' in cfg and cfg != 'bash32') else 64
 AGUARD = 256           # octets behind every operand buffer (harness-owned, must stay untouched)
 GUARD = 768            # octets behind the exactly-deep scratch area, owned by the harness, must stay untouched
 POISON = 0xEE
@@ -86,6 +90,10 @@ class Cell:
         self.L, self.ent, self.sh = L, ent, sh
         self.W = W = 8 * L.wbytes
         self.A = vf.Arena(L)
+        # under a sanitizer build the buffers are exact-size allocations with NO harness guard: the redzone sees over-reads too
+        san = L.cfg in vf.SAN_CFGS
+        self.AG = 0 if san else AGUARD
+        self.G = 0 if san else GUARD
         f = getattr(L.dll, ent.name + ed)
         f.restype = ctypes.c_uint64
         f.argtypes = [ctypes.c_uint64] * len(ent.args)
@@ -102,7 +110,7 @@ class Cell:
                 nb = ev(a.length, sh, W) * L.wbytes
                 r = rep.get(a.name, a.name)
                 if r not in self.bufs:
-                    self.bufs[r] = (self.A.buf(nb + AGUARD, 0xA5), nb)
+                    self.bufs[r] = (self.A.buf(nb + self.AG, 0xA5), nb)
                     self.guarded.append((r, self.bufs[r][0].addr + nb))
                 self.bufs[a.name] = self.bufs[r]
         self.stack = None; self.deep = 0
@@ -120,7 +128,7 @@ class Cell:
                 name, rest = a.length.split('(', 1)
                 args = [ev(x, sh, W) for x in rest[:-1].split(',') if x.strip()]
                 self.deep = L.sz(name, *args)
-                self.stack = self.A.buf(self.deep + GUARD, 0xA5)
+                self.stack = self.A.buf(self.deep + self.G, 0xA5)
                 self.argv.append(self.stack.addr)
             else:
                 self.argv.append(None)      # scalar, filled per call
@@ -129,8 +137,8 @@ class Cell:
         self.outs = [a.name for a in ent.args if a.kind in ('out', 'io')]
         self.consts = [a.name for a in ent.args if a.kind == 'in' and all(self.bufs[a.name][0] is not self.bufs[o][0] for o in self.outs)]
         self.pure_out = [a.name for a in ent.args if a.kind == 'out' and all(self.bufs[a.name][0] is not self.bufs[i][0] for i, _ in self.ins)]
-        self.guard = b'\xA5' * GUARD
-        self.aguard = b'\xA5' * AGUARD
+        self.guard = b'\xA5' * self.G
+        self.aguard = b'\xA5' * self.AG
 
     def close(self):
         self.A.__exit__()
@@ -164,17 +172,17 @@ class Cell:
             r = raw & 0xFFFFFFFF; got['ret'] = r - (1 << 32) if r >> 31 else r
         elif ent.ret == 'size':
             got['ret'] = raw
-        if self.stack is not None and sat(self.stack.addr + self.deep, GUARD) != self.guard:
-            g = sat(self.stack.addr + self.deep, GUARD)
-            k = GUARD
+        if self.stack is not None and self.G and sat(self.stack.addr + self.deep, self.G) != self.guard:
+            g = sat(self.stack.addr + self.deep, self.G)
+            k = self.G
             while k and g[k - 1] == 0xA5:
                 k -= 1
             bad.append(('stack-overrun', 'wrote at least %d octets beyond the %d octets of its documented scratch depth' % (k, self.deep)))
-            ctypes.memset(self.stack.addr + self.deep, 0xA5, GUARD)
-        for name, ga in self.guarded:
-            if sat(ga, AGUARD) != self.aguard:
+            ctypes.memset(self.stack.addr + self.deep, 0xA5, self.G)
+        for name, ga in (self.guarded if self.AG else []):
+            if sat(ga, self.AG) != self.aguard:
                 bad.append(('buffer-overrun', 'wrote beyond the documented length (%d octets) of buffer %s' % (self.bufs[name][1], name)))
-                ctypes.memset(ga, 0xA5, AGUARD)
+                ctypes.memset(ga, 0xA5, self.AG)
         for name in self.consts:
             b, nb = self.bufs[name]
             if nb and int.from_bytes(sat(b.addr, nb), 'little') != v[name]:
